@@ -15,8 +15,8 @@
 (* Steps(S, t) is the set of possible steps [S: next state, lab: label] of thread t in state S.              *)
 EXTENDS FailsafeBase, Json, TLC
 
-VARIABLES cfg, pol, now, xs, th, envi
-tvars == <<cfg, pol, now, xs, th, envi>>
+VARIABLES cfg, pol, now, xs, th, envi, acqc      \* acqc: standalone acquirers whose context has been cancelled
+tvars == <<cfg, pol, now, xs, th, envi, acqc>>
 
 Stack == cfg.stack
 N == Len(Stack)
@@ -24,6 +24,8 @@ NilPR == PR("NILPR", Nil, FALSE, FALSE, FALSE)
 NoLab == [ev |-> "-"]
 NoX == [nx |-> 0]          \* "no extra payload" (ignored when a label is matched against a trace line)
 NoWait == [k |-> "-", until |-> -1, coop |-> FALSE, kk |-> 0]
+\* hedge delay: fixed, or a delay function of the execution (the harness' function indexes a list by Hedges())
+HedgeDelay(p, hedgesSoFar) == IF p.delays = <<>> THEN p.delay ELSE p.delays[(hedgesSoFar % Len(p.delays)) + 1]
 Min2(a, b) == IF a < b THEN a ELSE b
 
 ----------------------------------------------------------------------------
@@ -107,7 +109,7 @@ DownSteps(S, t) ==
              at == NewThread(T.x, "att", "down", i + 1, c, t, i, 0, NoWait)
              S1 == [SetX(S, t, X1) EXCEPT !.th = Append(@, at),
                                           !.th[t].hg[i] = [count |-> 0, sent |-> FALSE, chan |-> <<>>, n |-> 1, aobj |-> <<c>>]]
-         IN Silent(Block(S1, t, [k |-> "hedge", until |-> IF p.maxh > 0 THEN now + p.delay ELSE -1, coop |-> FALSE, kk |-> 0]))
+         IN Silent(Block(S1, t, [k |-> "hedge", until |-> IF p.maxh > 0 THEN now + HedgeDelay(p, X.hdg) ELSE -1, coop |-> FALSE, kk |-> 0]))
     [] p.k = "cb" ->
          LET a == BO(p.cfg)!TryAcq(S.pol[p.id], now)
              S1 == [S EXCEPT !.pol[p.id] = a.b] IN
@@ -215,14 +217,18 @@ UpSteps(S, t) ==
        [] T.sub = "rec2" -> Silent([SetX(S, t, [X EXCEPT !.doneflag = TRUE]) EXCEPT !.th[t].sub = "rec3"])      \* done.Store(true)
        [] T.sub = "rec3" -> Silent(End(SetX(S, t, [X EXCEPT !.closed = TRUE, !.returned = TRUE]), t))              \* close(doneChan)
   ELSE IF T.kind = "att" /\ i = T.pl THEN
-     \* a hedge attempt's goroutine after innerFn returned: counter, cancellable?, flag, send
-     LET p == Stack[i]   M == S.th[T.pt]   h == M.hg[i]
-         cnt == h.count + 1
-         final == cnt = p.maxh + 1
-         canc == (p.c = {}) \/ AbortsCode(p.c, pr.r, pr.e)
-         send == (final \/ canc) /\ ~h.sent
-         h1 == [h EXCEPT !.count = cnt, !.sent = @ \/ send, !.chan = IF send THEN <<[res |-> pr, idx |-> T.idx + 1]>> ELSE @]
-     IN Silent(End([S EXCEPT !.th[T.pt].hg[i] = h1], t))
+     \* a hedge attempt's goroutine after innerFn returned: resultCount.Add(1) ...
+     LET p == Stack[i]   M == S.th[T.pt]   h == M.hg[i] IN
+     IF T.sub = "-" THEN
+        LET cnt == h.count + 1 IN
+        Silent([S EXCEPT !.th[T.pt].hg[i].count = cnt, !.th[t].sub = IF cnt = p.maxh + 1 THEN "final" ELSE "notfinal"])
+     ELSE
+     \* ... then, separately: cancellable?, resultSent.CompareAndSwap, send
+        LET final == T.sub = "final"
+            canc == (p.c = {}) \/ AbortsCode(p.c, pr.r, pr.e)
+            send == (final \/ canc) /\ ~h.sent
+            h1 == [h EXCEPT !.sent = @ \/ send, !.chan = IF send THEN <<[res |-> pr, idx |-> T.idx + 1]>> ELSE @]
+        IN Silent(End([S EXCEPT !.th[T.pt].hg[i] = h1], t))
   ELSE
   LET p == Stack[i] IN
   CASE p.k = "retry" -> RetrySteps(S, t)
@@ -290,6 +296,10 @@ WakeSteps(S, t) ==
          IF w.until <= now \/ Canceled(X, o) THEN Silent([S EXCEPT !.th[t].mode = "up", !.th[t].w = NoWait]) ELSE {}
     [] w.k = "sleep" ->
          IF w.until <= now THEN Silent([S EXCEPT !.th[t].mode = "up", !.th[t].w = NoWait]) ELSE {}
+    [] w.k = "bhacq" ->
+         LET id == T.sub IN
+         (IF w.kk \in S.acqc THEN One(End(S, t), [ev |-> "BhAcquired", w |-> w.kk, ok |-> FALSE]) ELSE {})
+         \cup (IF S.pol[id] < cfg.bhmax[id] THEN Silent([S EXCEPT !.pol[id] = @ + 1, !.th[t].mode = "ctl", !.th[t].sub = "acqok", !.th[t].w = [NoWait EXCEPT !.kk = w.kk]]) ELSE {})
     [] w.k = "csleep" ->
          IF w.until <= now THEN Silent([S EXCEPT !.th[t].mode = "canc", !.th[t].w = NoWait]) ELSE {}
     [] w.k = "bh" ->
@@ -324,6 +334,7 @@ Steps(S, t) ==
            [] T.sub = "BhTake" ->
                 IF S.pol[id] < cfg.bhmax[id] THEN Silent([S EXCEPT !.pol[id] = @ + 1, !.th[t].sub = "took"])
                 ELSE Silent([S EXCEPT !.th[t].sub = "full"])
+           [] T.sub = "acqok" -> One(End(S, t), [ev |-> "BhAcquired", w |-> T.w.kk, ok |-> TRUE])
            [] T.sub = "took" -> One(End(S, t), [ev |-> "BhTake", id |-> id, ok |-> TRUE])
            [] T.sub = "full" -> One(End(S, t), [ev |-> "BhTake", id |-> id, ok |-> FALSE]))
     [] T.mode = "onfull" ->       \* the bulkhead refused (ErrFull): OnFull listener, then the failure result goes up
@@ -333,7 +344,7 @@ Steps(S, t) ==
          LET i == T.i   p == Stack[i]   h == T.hg[i]   X == XX(S, t)   c == h.aobj[Len(h.aobj)]
              at == NewThread(T.x, "att", "down", i + 1, c, t, i, h.n, NoWait)
              S2 == [S EXCEPT !.th = Append(@, at), !.th[t].hg[i].n = h.n + 1, !.th[t].mode = "wait",
-                             !.th[t].w = [k |-> "hedge", until |-> IF h.n < p.maxh THEN now + p.delay ELSE -1, coop |-> FALSE, kk |-> 0]]
+                             !.th[t].w = [k |-> "hedge", until |-> IF h.n < p.maxh THEN now + HedgeDelay(p, X.hdg) ELSE -1, coop |-> FALSE, kk |-> 0]]
          IN One(S2, LabA("OnHedge", S, t, i, X.last[c], NoX, c))
     [] T.mode = "wait" -> WakeSteps(S, t)
     [] T.kind = "timer" -> TimerSteps(S, t)
@@ -365,6 +376,12 @@ EnvSteps(S) ==
               One([S EXCEPT !.th = Append(@, c)], [ev |-> e.what, x |-> e.x])
          \* standalone bulkhead API from the controller: the call's start is visible, the semaphore operation is a silent step
          \* of a helper thread, and (TryAcquirePermit) the returned value is visible afterwards
+         \* standalone AcquirePermit(ctx): a helper goroutine blocks in select { ctx.Done / semaphore <- }; its return is visible
+         [] e.what = "BhAcquire" ->
+              LET c == [NewThread(1, "ctl", "wait", 0, 0, 0, 0, e.x, [NoWait EXCEPT !.k = "bhacq", !.kk = e.x]) EXCEPT !.sub = e.id] IN
+              One([S EXCEPT !.th = Append(@, c)], [ev |-> "BhAcquireCall", id |-> e.id, w |-> e.x])
+         [] e.what = "BhAcqCancel" ->
+              One([S EXCEPT !.acqc = @ \cup {e.x}], [ev |-> "BhAcqCancel", w |-> e.x])
          [] e.what \in {"BhTake", "BhRelease"} ->
               LET c == [NewThread(1, "ctl", "ctl", 0, 0, 0, 0, 0, NoWait) EXCEPT !.sub = e.what, !.w = [NoWait EXCEPT !.k = e.id]] IN
               One([S EXCEPT !.th = Append(@, c)], [ev |-> e.what \o "Call", id |-> e.id])
@@ -383,7 +400,7 @@ ObsLabels(S) ==
 
 ----------------------------------------------------------------------------
 (* ---- the transition relation ---- *)
-St == [pol |-> pol, xs |-> xs, th |-> th]
+St == [pol |-> pol, xs |-> xs, th |-> th, acqc |-> acqc]
 Runnable(S) == \E t \in 1..Len(S.th) : Steps(S, t) # {}
 EnvDue(S) == EnvSteps(S) # {}
 
@@ -392,10 +409,10 @@ Pending == {th[t].w.until : t \in {u \in 1..Len(th) : th[u].mode = "wait" /\ th[
            \cup (IF envi <= Len(cfg.env) /\ cfg.env[envi].at > now THEN {cfg.env[envi].at} ELSE {})
 MinOf(Sx) == CHOOSE m \in Sx : \A y \in Sx : m <= y
 
-Apply(r) == pol' = r.S.pol /\ xs' = r.S.xs /\ th' = r.S.th
+Apply(r) == pol' = r.S.pol /\ xs' = r.S.xs /\ th' = r.S.th /\ acqc' = r.S.acqc
 
 ThreadStep(lab) == \E t \in 1..Len(th) : \E r \in Steps(St, t) : r.lab = lab /\ Apply(r) /\ UNCHANGED <<cfg, now, envi>>
 EnvStep(lab) == \E r \in EnvSteps(St) : r.lab = lab /\ Apply(r) /\ envi' = envi + 1 /\ UNCHANGED <<cfg, now>>
 Advance == /\ ~Runnable(St) /\ ~EnvDue(St) /\ Pending # {}
-           /\ now' = MinOf(Pending) /\ UNCHANGED <<cfg, pol, xs, th, envi>>
+           /\ now' = MinOf(Pending) /\ UNCHANGED <<cfg, pol, xs, th, envi, acqc>>
 =============================================================================
